@@ -61,7 +61,7 @@ def _gen(rng, quick):
 
 
 def run(ctx):
-    kernel_sync.run(ctx, "life", 300, 3000, extra=EXTRA, compare_outcomes=False,
+    kernel_sync.run(ctx, "life", 300, 2000, extra=EXTRA, compare_outcomes=False,
                     nontrivial=lambda p: any(o["op"] in ("kill", "killall", "join", "create", "killtime", "daemon", "suspend", "autorestart")
                                              for a in p["actors"] for o in a),
                     rule_note="the program kills, joins, creates, daemonizes, suspends or sets a kill time",
